@@ -40,8 +40,10 @@ RULE = ("density: Hypothesis draws a compound derivation tree over all atom clas
         "isotope or ion. replace: tree with or without density, source/target drawn from the formula's atoms or from "
         "the table (source != target), portion in {0, 1} or (0, 1); oracle: expected atom map and density*mass'/mass, "
         "None stays None; non-trivial = 0 < portion < 1 with source and target both present. volume: atoms with a "
-        "covalent radius; packing factor by name in any letter case, number or default; lattice a[,b,c][,angles] in "
-        "keyword and positional form with a valid cell; oracle: closed forms; non-trivial = >= 2 distinct atoms "
+        "covalent radius; packing factor by name in any letter case, number or default; lattice a[,b,c][,angles] with a valid cell, each "
+        "case called in EVERY shape (first k = 0..6 parameters positional, the rest by keyword, omitted ones left to "
+        "their documented default) through Formula.volume and util.cell_volume, the documented exception (one "
+        "positional argument and nothing else) judged as a packing factor; oracle: closed forms; non-trivial = >= 2 distinct atoms "
         "(packing) or a non-right angle (lattice). Cases run on the public and on a private table; distinct by "
         "(family, string, route/arguments).")
 ASSUMPTIONS = [
@@ -423,27 +425,45 @@ def check_volume(ctx, value):
         ctx.count("skipped:cell not valid (Gram determinant < 1e-3)")
         return
     wants = [rc.lattice_volume(a, b, c, *r) for r in readings]
-    args = [given[k] for k in names[:npos]]
-    kw = dict((k, given[k]) for k in names[npos:] if k in given)
     nonright = any(x is not None and x != 90 for x in (al, be, ga))
-    ctx.case(("l", which, s, repr(args), repr(sorted(kw.items()))), nontrivial=nonright,
-             sample={"string": s, "args": args, "kw": kw, "table": which},
-             cls=["family:volume", "volume:lattice", "positional:%d" % npos, "table:" + which,
-                  "given:" + "".join(k[0] if k in given else "-" for k in names),
-                  "angles:" + ("none" if (al, be, ga) == (None, None, None) else "all" if None not in (al, be, ga) else "some")])
-    try:
-        got = f.volume(*args, **kw)
-    except Exception as e:  # noqa
-        fr = lib_frame(e.__traceback__)
-        if fr is None:
-            raise
-        raise Violation("c12:volume:lattice:%s" % type(e).__name__, "formula(%r).volume(*%r, **%r) raised %s: %s"
-                        % (s, args, kw, type(e).__name__, e), case)
     tol = 1e-13 + 16 * EPS / D
-    if not any(close(got, w, tol) for w in wants):
-        sub = "angles" if nonright else "lengths"
-        raise Violation("c12:volume:lattice:" + sub, "formula(%r).volume(*%r, **%r) = %r expected %s"
-                        % (s, args, kw, got, " or ".join("%.17g" % w for w in sorted(set(wants)))), case)
+    acls = "angles:" + ("none" if (al, be, ga) == (None, None, None) else "all" if None not in (al, be, ga) else "some")
+    gcls = "given:" + "".join(k[0] if k in given else "-" for k in names)
+    # Every call shape: the first k parameters positionally (k = 0..6), the rest
+    # by keyword.  A positional prefix needs every parameter in it: an omitted b
+    # or c is passed as its documented default a; an omitted angle ends the prefix.
+    full = dict(given, b=b, c=c)
+    kmax = 0
+    while kmax < 6 and names[kmax] in full:
+        kmax += 1
+    from periodictable.util import cell_volume
+    for k in range(0, kmax + 1):
+        args = [full[x] for x in names[:k]]
+        kw = dict((x, given[x]) for x in names[k:] if x in given)
+        for target in ("Formula.volume", "util.cell_volume"):
+            if target == "Formula.volume" and k == 1 and not kw:
+                # the documented exception: one positional argument and nothing else is a packing factor
+                radii = [(rc.key_atom(T, key).covalent_radius, float(n)) for key, n in sorted(comp.items())]
+                shape_wants, shape_tol, shape = [rc.sphere_volume(radii, a)], 1e-13, "k=1-alone-is-packing-factor"
+            else:
+                scale = 1.0 if target == "Formula.volume" else 1e24
+                shape_wants, shape_tol, shape = [w * scale for w in wants], tol, "k=%d" % k
+            ctx.case(("l", which, s, target, repr(args), repr(sorted(kw.items()))), nontrivial=nonright,
+                     sample={"string": s, "call": target, "args": args, "kw": kw, "table": which},
+                     cls=["family:volume", "volume:lattice", "shape:%s:%s%s" % (target, shape, "+kw" if kw else ""),
+                          "table:" + which, gcls, acls])
+            try:
+                got = f.volume(*args, **kw) if target == "Formula.volume" else cell_volume(*args, **kw)
+            except Exception as e:  # noqa
+                fr = lib_frame(e.__traceback__)
+                if fr is None:
+                    raise
+                raise Violation("c12:volume:lattice:%s:%s:%s" % (target, shape + ("+kw" if kw else ""), type(e).__name__),
+                                "formula(%r): %s(*%r, **%r) raised %s: %s" % (s, target, args, kw, type(e).__name__, e), case)
+            if not any(close(got, w, shape_tol) for w in shape_wants):
+                sub = "packing" if shape.startswith("k=1-") else "angles" if nonright else "lengths"
+                raise Violation("c12:volume:lattice:%s:%s" % (target, sub), "formula(%r): %s(*%r, **%r) = %r expected %s"
+                                % (s, target, args, kw, got, " or ".join("%.17g" % w for w in sorted(set(shape_wants)))), case)
 
 
 # ----------------------------------------------------------------------
@@ -516,18 +536,9 @@ def task_volume(ctx, n, depth):
     cell = st.tuples(length, opt(length), opt(length), st.one_of(none3, all3, all3, some3)).map(
         lambda t: {"a": t[0], "b": t[1], "c": t[2], "alpha": t[3][0], "beta": t[3][1], "gamma": t[3][2]})
 
-    def fix(d):
-        # positional arguments: none, or a prefix of at least two parameters all of which are given
-        names = ["a", "b", "c", "alpha", "beta", "gamma"]
-        k = 0
-        while k < 6 and d["cell"].get(names[k]) is not None:
-            k += 1
-        n = min(d["npos"], k)
-        d["npos"] = n if n >= 2 else 0
-        return d
-    lattice = st.fixed_dictionaries({"mode": st.just("lattice"), "tree": tree, "cell": cell,
-                                     "npos": st.sampled_from([0, 0, 2, 3, 4, 5, 6]),
-                                     "table": st.sampled_from(["public", "private"])}).map(fix)
+    # every call shape (k positional + the rest by keyword, Formula.volume and util.cell_volume) runs per case
+    lattice = st.fixed_dictionaries({"mode": st.just("lattice"), "tree": tree, "cell": cell, "npos": st.just(0),
+                                     "table": st.sampled_from(["public", "private"])})
     pf = st.one_of(st.tuples(st.integers(0, 4), st.integers(0, 4)).map(list),
                    st.tuples(st.integers(0, 4), st.integers(0, 4)).map(list),
                    st.floats(0.05, 1.0, allow_nan=False))
